@@ -69,6 +69,44 @@ def one_revert(case, target, rels):
         env.close()
 
 
+def repeated_revert(case, target):
+    """one session: revert to V, commit, change the entity again, commit, revert to the SAME version object again"""
+    import sqlalchemy_continuum as sc
+    import traceback
+    env, r, obs = replay(case)
+    try:
+        if obs.get('error'):
+            return {'history_error': obs['error']}
+        cname, pk, tx = target
+        V = sc.version_class(env.classes[cname])
+        s = env.s
+        vobj = s.get(V, (pk[0], tx))
+        if vobj is None:
+            return {'missing': True}
+        t = r.tracer
+        versions = t.dump_versions()
+        err = None
+        try:
+            vobj.revert()
+            s.commit()
+            obj = s.get(env.classes[cname], pk[0])
+            attr = 'name'
+            setattr(obj, attr, 's77')
+            s.commit()
+            before = {'live': r.dump_livev(), 'links': t.dump_links(), 'raw': raw_tables(env)}
+            vobj.revert()
+            s.commit()
+        except Exception as e:
+            err = {'type': type(e).__name__, 'msg': str(e)[:200],
+                   'in_continuum': any('/sqlalchemy_continuum/' in f.filename for f in traceback.extract_tb(e.__traceback__))}
+            s.rollback()
+            before = {'live': [], 'links': [], 'raw': {}}
+        after = {'live': r.dump_livev(), 'links': t.dump_links(), 'raw': raw_tables(env)}
+        return {'before': before, 'after': after, 'versions': versions, 'assoc': t.dump_assoc(), 'error': err, 'repeated': True}
+    finally:
+        env.close()
+
+
 def raw_tables(env):
     raw = env.conn.connection.dbapi_connection
     out = {}
@@ -95,7 +133,8 @@ class C05(Prop):
             'actually restored); distinct = (history, target, relationships)')
     assumptions = ['nested / cyclic relation paths are not enumerated (first-level relationships only)',
                    'that the revert transaction is itself versioned correctly is C01/C02/C11 (history_all)']
-    needs_tags = ['target_delete_version', 'entity_deleted_now', 'rel:o2m', 'rel:m2m', 'rel:m2o', 'middle_version', 'excluded_col']
+    needs_tags = ['target_delete_version', 'entity_deleted_now', 'rel:o2m', 'rel:m2m', 'rel:m2o', 'middle_version', 'excluded_col',
+                  'repeated_revert']
 
     def counts(self, tier):
         return 20 if tier == "quick" else 500
@@ -124,6 +163,11 @@ class C05(Prop):
             cname = 'Article' if f[0] == '0' else 'Tag'
             targets.append((cname, [int(f[1])], int(f[2]), int(f[4])))
         results = []
+        # reverting twice to one version object (the version tables seen by the oracle are those before the first revert)
+        for (cname, pk, tx, op) in [t for t in targets if t[3] != 2][:2]:
+            res = repeated_revert(case, (cname, pk, tx))
+            res.update({'target': [cname, pk, tx, op], 'rels': []})
+            results.append(res)
         for (cname, pk, tx, op) in targets:
             options = [()] + [(name,) for name, _ in RELS[case['shape']][cname]]
             for rels in options:
@@ -196,6 +240,9 @@ class C05(Prop):
             # a DELETE version has no related state to restore: the entity is simply absent afterwards
             if op != 2 and relbits != '-' and set(relbits) != {'1'}:
                 out.violations.append({'clause': 'C05.relationship:' + '+'.join(res['rels']), 'detail': det})
+            if res.get('repeated'):
+                out.tags.append('repeated_revert')
+                frame = '1'      # the frame of the second revert is not judged (the entity was edited in between)
             if frame == '0':
                 out.violations.append({'clause': 'C05.FrameHolds:' + ('+'.join(res['rels']) or 'none'), 'detail': det})
             # excluded columns are never altered by a revert (raw application table)
